@@ -199,7 +199,31 @@ func (r *rewriter) exprNeedsYield(e ast.Node) ast.Node {
 	return found
 }
 
+// noteState is rule T8: after an assignment to a struct field of the engine's RunningStepState type
+// (the state the fallback deadlock detector reads), tell the runtime which value the goroutine has
+// just written, so that a snapshot can say what a held-up step goroutine last claimed about itself.
+func (r *rewriter) noteState(s ast.Stmt) {
+	as, ok := s.(*ast.AssignStmt)
+	if !ok || as.Tok != token.ASSIGN || len(as.Lhs) != 1 || len(as.Rhs) != 1 {
+		return
+	}
+	se, ok := as.Lhs[0].(*ast.SelectorExpr)
+	if !ok {
+		return
+	}
+	t := r.typeOf(se)
+	if t == nil {
+		return
+	}
+	n, ok := t.(*types.Named)
+	if !ok || n.Obj().Pkg() == nil || n.Obj().Name() != "RunningStepState" || !strings.HasSuffix(n.Obj().Pkg().Path(), "/internal/step") {
+		return
+	}
+	r.insert(as.End(), fmt.Sprintf("; simrt.NoteState(%s, string(%s))", r.site(as, "state"), r.text(se)), 3)
+}
+
 func (r *rewriter) stmtYield(s ast.Stmt) {
+	r.noteState(s)
 	var n ast.Node
 	switch x := s.(type) {
 	case *ast.SendStmt:
